@@ -132,6 +132,9 @@ func c19Globals(c *Ctx) {
 			}
 		case *ssa.Extract:
 			return rootsOf(x.Tuple, depth+1, seen)
+		case *ssa.Lookup:
+			// an element of a map (or string): a reference element lives in the map's memory
+			return rootsOf(x.X, depth+1, seen)
 		case *ssa.FreeVar:
 			// captured variable: find the binding in the parent
 			fn := x.Parent()
@@ -307,6 +310,56 @@ func c19Globals(c *Ctx) {
 		}
 	}
 	c.R.Sites += n
+	// bytes of a package-level variable handed to the caller: the documented idiom for what the
+	// constructors return is to mask / fill it in place, which then writes the shared bytes
+	{
+		const brule = "C19.no-global-bytes-returned"
+		c.R.Rule(brule, 1, "no exported function returns a byte slice that lives in a package-level variable")
+		var bad []string
+		checked := 0
+		for _, fn := range funcs {
+			if fn.Parent() != nil || fn.Object() == nil || !fn.Object().Exported() || fn.Blocks == nil {
+				continue
+			}
+			res := fn.Signature.Results()
+			returnsBytes := false
+			for i := 0; i < res.Len(); i++ {
+				if sl, ok := res.At(i).Type().Underlying().(*types.Slice); ok {
+					if bt, ok := sl.Elem().Underlying().(*types.Basic); ok && bt.Kind() == types.Byte {
+						returnsBytes = true
+					}
+				}
+			}
+			if !returnsBytes {
+				continue
+			}
+			checked++
+			for _, b := range fn.Blocks {
+				for _, in := range b.Instrs {
+					ret, ok := in.(*ssa.Return)
+					if !ok {
+						continue
+					}
+					for i, rv := range ret.Results {
+						if sl, ok := res.At(i).Type().Underlying().(*types.Slice); !ok || !isByteSlice(sl) {
+							continue
+						}
+						for _, r := range rootsOf(rv, 0, map[ssa.Value]bool{}) {
+							if r.g != nil && r.g.Pkg != nil && inModulePkg(r.g.Pkg.Pkg.Path()) {
+								bad = append(bad, fmt.Sprintf("%s returns bytes of the package-level variable %s (%s)", astFuncName(fn), canonGlobalName(r.g), c.P.Pos(ret.Pos())))
+							}
+						}
+					}
+				}
+			}
+		}
+		sort.Strings(bad)
+		if len(bad) > 0 {
+			c.R.Fail(brule, brule+"/exported-results", "-", fmt.Sprintf("%d result(s) hand shared bytes to the caller; first: %s - a caller that masks or fills what it was given (the documented use of the frame constructors) changes it for every other connection", len(bad), bad[0]))
+		} else {
+			c.R.OK(brule, brule+"/exported-results", "-", fmt.Sprintf("%d exported functions return byte slices, none of them memory of a package-level variable", checked))
+		}
+	}
 	// reviewed escapes of global addresses to code outside the module
 	reviewed := map[string]string{
 		"writers -> (*github.com/gobwas/pool.Pool).Get":                           "pool.Pool is a set of sync.Pool: goroutine safe",
@@ -945,4 +998,9 @@ func c19ReturnedClosures(c *Ctx) {
 		}
 	}
 	c.R.Sites += n
+}
+
+func isByteSlice(sl *types.Slice) bool {
+	bt, ok := sl.Elem().Underlying().(*types.Basic)
+	return ok && bt.Kind() == types.Byte
 }
